@@ -88,7 +88,7 @@ def _exc_failure(relation, symptom, exc, desc, store, seed, wd, what, blame=True
 
 def run_graph(desc, seed, scratch):
     """All three relations for one graph in both stores. Returns (fails, outcome, nontrivial, roundtrips)."""
-    fails, loaded, outcome, rts = [], {}, {}, 0
+    fails, loaded, outcome, rts, has_attrs = [], {}, {}, 0, False
     with S.Workdir(scratch, "C01") as wd:
         for store in STORES:
             x = S.build(desc, seed)
@@ -99,6 +99,7 @@ def run_graph(desc, seed, scratch):
                 outcome[store] = [st, type(y).__name__]
                 continue
             outcome[store] = S.summary(y)
+            has_attrs = has_attrs or len(vars(y)) > 0
             d1 = S.diff(S.build(desc, seed), y, slack=True)
             if d1:
                 fails.append((S.cls_of(d1[0], relation="load_save_equals_input"), f"store={store} graph {S.show(desc)}: load(save(x)) differs from x: {S.fmt(d1)}"))
@@ -116,7 +117,7 @@ def run_graph(desc, seed, scratch):
             d2 = S.diff(loaded["zip"], loaded["dir"], slack=False)
             if d2:
                 fails.append((S.cls_of(d2[0], relation="zip_equals_dir"), f"graph {S.show(desc)}: zip result (expected) differs from dir result (observed): {S.fmt(d2)}"))
-    nontrivial = any(len(vars(y)) > 0 for y in loaded.values())
+    nontrivial = has_attrs
     # the same failure class in both stores is one failing point (the message names both)
     folded, seen = [], {}
     for cls, msg in fails:
@@ -290,6 +291,7 @@ def replay(ctx, case):
     if case["kind"] == "graph":
         desc = case["graph"]
         print(f"  graph: {S.show(desc)}  (seed {seed})")
+        print(f"  input : {str(S.summary(S.build(desc, seed)))[:400]}")
         fails, outcome, _, _ = run_graph(desc, seed, ctx.scratch)
         for cls, msg in fails:
             ctx.fail(cls, case, msg)
